@@ -3,6 +3,7 @@ import SoundeventModel.Ops.C09
 import SoundeventModel.Ops.C19
 import SoundeventModel.DetectionGeo
 import SoundeventModel.DetectionTags
+import SoundeventModel.DetectionHistory
 namespace SE.Ops.C08
 open Lean SE SE.Metrics SE.Detection SE.Ops.C09
 
@@ -81,16 +82,43 @@ def getPairs (j : Json) : Except String (List (Nat × Nat)) := do
 
 def getRows (j : Json) : Except String (List (List Rat)) := do (← getArr j).mapM getRatList
 
-def getGeoPreds (tc : TagCtx) (j : Json) : Except String (List (Nat × GeoClip)) := do
+/-- a sound event with real tags and its geometry, as `Call.evaluate` carries it -/
+def getTGPred (c : TagCtx) (j : Json) : Except String TGPred := do
+  let g ← getOptGeom j "geom"
+  return ({ id := ← fldNat j "id", hasGeom := g.isSome, tags := ← c.predTags (← fld j "tags") }, g)
+
+def getTGAnn (c : TagCtx) (j : Json) : Except String TGAnn := do
+  let g ← getOptGeom j "geom"
+  return ({ id := ← fldNat j "id", hasGeom := g.isSome, tags := ← c.tags (← fld j "tags") }, g)
+
+def getTGeoPreds (tc : TagCtx) (j : Json) : Except String (List (Nat × TGeoClip)) := do
   (← getArr j).mapM (fun c => do
     return (← fldNat c "clip",
-      { events := ← (← getArr (optFld c "events" (arrJ []))).mapM (getGPred tc),
+      { events := ← (← getArr (optFld c "events" (arrJ []))).mapM (getTGPred tc),
         pairs := ← getPairs (optFld c "pairs" (arrJ [])),
         measured := ← getRows (optFld c "measured" (arrJ [])) }))
 
-def getGeoAnns (tc : TagCtx) (j : Json) : Except String (List (Nat × List GAnn)) := do
+def getTGeoAnns (tc : TagCtx) (j : Json) : Except String (List (Nat × List TGAnn)) := do
   (← getArr j).mapM (fun c => do
-    return (← fldNat c "clip", ← (← getArr (optFld c "events" (arrJ []))).mapM (getGAnn tc)))
+    return (← fldNat c "clip", ← (← getArr (optFld c "events" (arrJ []))).mapM (getTGAnn tc)))
+
+/-- a call of the library as a value (`Detection.Call`) -/
+def getCall (a : Json) : Except String Call := do
+  match ← fldStr a "call" with
+  | "evaluate" =>
+    let tc ← getTagCtx a
+    return .evaluate tc.vocab (← getTGeoPreds tc (← fld a "predictions")) (← getTGeoAnns tc (← fld a "annotations"))
+  | "match" =>
+    return .matchG (← fldRat a "tb") (← fldRat a "fb") (← (← fldArr a "src").mapM getGeom)
+      (← (← fldArr a "tgt").mapM getGeom) (← getPairs (optFld a "pairs" (arrJ []))) (← getRows (optFld a "measured" (arrJ [])))
+  | k => .error s!"C08: unknown call {k}"
+
+def mentryJ (e : MEntry) : Json := arrJ [optJ natJ e.src, optJ natJ e.tgt, ratJ e.aff]
+
+def answerJ : Answer → Json
+  | .evaluation r => exceptJ evalJ r
+  | .matches (.ok ms) => valJ (arrJ (ms.map mentryJ))
+  | .matches (.error _) => raiseJ .key
 
 def getOptGeoms (j : Json) : Except String (List (Option Geom)) := do
   (← getArr j).mapM (fun g => match g with
@@ -133,8 +161,12 @@ def handle (op : String) (a : Json) : Except String Json := do
     -- `sound_event_detection` with the matcher inside the model: geometries, the pairs the assignment solver
     -- chose and (for types without closed form) measured affinities are part of the request
     let tc ← getTagCtx a
-    return exceptJ evalJ (soundEventDetectionGeo tc.vocab.length (← fldRat a "tb") (← fldRat a "fb")
-      (← getGeoPreds tc (← fld a "predictions")) (← getGeoAnns tc (← fld a "annotations")))
+    return exceptJ evalJ (evaluateT tc.vocab (← fldRat a "tb") (← fldRat a "fb")
+      (← getTGeoPreds tc (← fld a "predictions")) (← getTGeoAnns tc (← fld a "annotations")))
+  | "call" =>
+    -- one call of a history (`Detection.Call`): an evaluation (matched with the default buffers `tb0`, `fb0`
+    -- of the matcher's signature) or a direct call of the matcher with its own buffers; C08_history
+    return answerJ (callModel (← fldRat a "tb0") (← fldRat a "fb0") (← getCall a))
   | "pair_score" =>
     -- "the score of a pair is the probability the prediction gives to the annotation's class", by tag equality
     -- only (C08_pair_score_is_class_probability): one answer per (annotated tags, predicted tags) of the request
